@@ -69,6 +69,10 @@ Proof.
   rewrite spec_norm in Ha. exact (spec_rejects_skip shipped_nd d m Hwf Hm Ha).
 Qed.
 
+Corollary shipped_check_not_accepted d m :
+  wf_doc d -> mutation false d m -> shipped_check (fst m) (snd m) <> Accept.
+Proof. intros Hwf Hm. destruct (shipped_check_rejects d m Hwf Hm) as [e He]. rewrite He. discriminate. Qed.
+
 (* ---------- an example: a catalog with a two-level page tree ---------- *)
 Definition ex_page : kid :=
   KPage (2, 0)%N {| a_opts := [(B "MediaBox", VRect, Direct (OArr [OInt 0; OInt 0; OInt 612; OReal 7920 10]));
